@@ -9,6 +9,9 @@
 #include <climits>
 
 using namespace verif;
+// a crash or sanitizer report inside a string operation counts for the property being checked (C16 runs this harness too:
+// a read from a block that was already given back is its matter as much as C15's)
+static std::string crash_prop() { return wanted_prop() == "C16" ? "C16" : "C15"; }
 using Str = frg::basic_string<char, TrackAlloc>;
 using View = frg::basic_string_view<char>;
 
@@ -31,7 +34,7 @@ static void check_owned(const Str &s, const std::string &want, const char *what)
 static int sgn(int x) { return (x > 0) - (x < 0); }
 
 static InstResult run_unary(const std::vector<CrashInfo> &cr, size_t maxlen) {
-	Enumerator E("strings-unary", "C15", cr);
+	Enumerator E("strings-unary", crash_prop(), cr);
 	GuardBuf g1, g2;
 	for(auto &s : all_strings(maxlen)) {
 		std::string key = printable(s);
@@ -162,7 +165,7 @@ static InstResult run_unary(const std::vector<CrashInfo> &cr, size_t maxlen) {
 }
 
 static InstResult run_binary(const std::vector<CrashInfo> &cr, size_t maxlen, int shard, int nshards) {
-	Enumerator E("strings-binary-" + std::to_string(shard), "C15", cr);
+	Enumerator E("strings-binary-" + std::to_string(shard), crash_prop(), cr);
 	GuardBuf g1, g2;
 	auto all = all_strings(maxlen);
 	for(size_t i = shard; i < all.size(); i += nshards) for(auto &t : all) {
@@ -206,7 +209,7 @@ static InstResult run_binary(const std::vector<CrashInfo> &cr, size_t maxlen, in
 
 // compare(): transitivity over all triples (values only, no allocation per triple)
 static InstResult run_triples(const std::vector<CrashInfo> &cr, size_t maxlen) {
-	Enumerator E("strings-compare-triples", "C15", cr);
+	Enumerator E("strings-compare-triples", crash_prop(), cr);
 	world_reset();
 	auto all = all_strings(maxlen);
 	std::vector<Str *> objs;
@@ -237,7 +240,7 @@ template<class T> static void tonum(Enumerator &E, GuardBuf &g, const std::strin
 	});
 }
 static InstResult run_tonumber(const std::vector<CrashInfo> &cr, size_t maxlen) {
-	Enumerator E("strings-to_number", "C15", cr);
+	Enumerator E("strings-to_number", crash_prop(), cr);
 	GuardBuf g;
 	std::vector<std::string> inputs;
 	for_all_strings("019a", maxlen, [&](const std::string &s) { inputs.push_back(s); });
@@ -249,7 +252,7 @@ static InstResult run_tonumber(const std::vector<CrashInfo> &cr, size_t maxlen) 
 
 // wide characters: construction / append only (terminator arithmetic with sizeof(Char) > 1)
 static InstResult run_wide(const std::vector<CrashInfo> &cr) {
-	Enumerator E("strings-char32", "C15", cr);
+	Enumerator E("strings-char32", crash_prop(), cr);
 	using W = frg::basic_string<char32_t, TrackAlloc>;
 	using WV = frg::basic_string_view<char32_t>;
 	GuardBuf g;
@@ -280,7 +283,7 @@ struct StrSeq : HarnessBase {
 	int maxlen;
 	GuardBuf g;
 	StrSeq(int m) : maxlen(m) {}
-	const char *prop() const { return "C15"; }
+	const char *prop() const { static std::string p = crash_prop(); return p.c_str(); }
 	Str &s(int a) { return *reinterpret_cast<Str *>(store[a]); }
 	void reset() { world_reset(); for(int a = 0; a < 2; a++) { new(store[a]) Str(TrackAlloc{}); alive[a] = true; ref[a].clear(); } }
 	enum { APPEND_CHAR, APPEND_OTHER, APPEND_SELF, PUSH, RESIZE, ASSIGN, SWAP, PLUS };
@@ -319,7 +322,7 @@ struct StrSeq : HarnessBase {
 
 // characters with the high bit set (char is signed here): hashing and comparison of string vs view vs copy
 static InstResult run_highbit(const std::vector<CrashInfo> &cr) {
-	Enumerator E("strings-high-bit", "C15", cr);
+	Enumerator E("strings-high-bit", crash_prop(), cr);
 	GuardBuf g1, g2;
 	std::vector<std::string> all;
 	for_all_strings(std::string("a\x80\xff\0", 4), 3, [&](const std::string &s) { all.push_back(s); });
